@@ -369,7 +369,6 @@ func (w *World) cellNonEmptyBefore(al *ssa.Alloc, at ssa.Instruction, depth int)
 	return bad == "", orStr(bad, "non-empty on every path to the capture point")
 }
 
-
 // replacedIfEmpty: st stores a possibly empty value into field fa of a local struct variable; on
 // every path from st to a point where the variable is read as a whole, passed on or the function
 // returns, either the path takes the len(value) != 0 edge of a test of the same value, or the
